@@ -240,3 +240,64 @@ Proof.
   - eapply Forall2_weaken; [| exact Hconf]. intros g c [_ H]. exact H.
   - exact Hrecs.
 Qed.
+
+(* ------------------------------------------------- the boolean envelope checkers used by the harness are sound *)
+Lemma natlist_eqb_eq : forall a b, natlist_eqb a b = true -> a = b.
+Proof.
+  unfold natlist_eqb. induction a as [| x t IH]; intros [| y u] H; cbn [list_eqb] in H; try discriminate; [reflexivity |].
+  apply andb_true_iff in H. destruct H as [H1 H2]. apply Nat.eqb_eq in H1. subst. f_equal. apply IH. exact H2.
+Qed.
+
+Lemma insert_allN_perm : forall x l p, In p (insert_allN x l) -> Permutation p (x :: l).
+Proof.
+  intros x l. induction l as [| y t IH]; intros p Hin; cbn [insert_allN In] in Hin.
+  - destruct Hin as [Heq | []]. subst. apply Permutation_refl.
+  - destruct Hin as [Heq | Hin]; [subst; apply Permutation_refl |].
+    apply in_map_iff in Hin. destruct Hin as [q [Heq Hq]]. subst p.
+    eapply perm_trans; [apply perm_skip; apply IH; exact Hq | apply perm_swap].
+Qed.
+
+Lemma permsN_perm : forall l p, In p (permsN l) -> Permutation p l.
+Proof.
+  induction l as [| x t IH]; intros p Hin; cbn [permsN In] in Hin.
+  - destruct Hin as [Heq | []]. subst. apply Permutation_refl.
+  - apply in_flat_map in Hin. destruct Hin as [q [Hq Hp]].
+    eapply perm_trans; [apply insert_allN_perm; exact Hp | apply perm_skip; apply IH; exact Hq].
+Qed.
+
+Lemma in_force_pos_sound : forall fb g cfg out,
+  in_force_pos fb g cfg out = true -> In (Some out) (force_pos_envelope fb g cfg).
+Proof.
+  intros fb g cfg out H. unfold in_force_pos in H. apply existsb_exists in H. destruct H as [x [Hx Heq]].
+  apply ocol_eqb_eq in Heq. subst x. exact Hx.
+Qed.
+
+Lemma cuts_replay_sound : forall sens decs bps obs,
+  cuts_replay sens decs bps obs = true -> exists dec, compute_cuts sens dec bps = obs.
+Proof.
+  intros sens decs bps obs H. unfold cuts_replay in H. apply natlist_eqb_eq in H. eexists. exact H.
+Qed.
+
+Lemma assignments_in_envelope_sound : forall affs cur obs,
+  assignments_in_envelope cur affs obs = true ->
+  exists bests, Forall2 (fun b aff => Permutation b aff) bests affs /\ assignments_from cur bests = Some (cur :: obs).
+Proof.
+  induction affs as [| aff affs' IH]; intros cur obs H; destruct obs as [| nx obs']; cbn [assignments_in_envelope] in H;
+    try discriminate.
+  - exists []. split; [constructor | reflexivity].
+  - apply andb_true_iff in H. destruct H as [H1 H2]. apply existsb_exists in H1. destruct H1 as [p [Hp Hstep]].
+    destruct (assign_step cur p) as [y |] eqn:Ey; [| discriminate]. apply natlist_eqb_eq in Hstep. subst y.
+    destruct (IH nx obs' H2) as [bests [Hb Ha]]. exists (p :: bests). split.
+    + constructor; [apply permsN_perm; exact Hp | exact Hb].
+    + cbn [assignments_from]. rewrite Ey, Ha. reflexivity.
+Qed.
+
+Theorem envelope_checkers_sound :
+  (forall fb g cfg out, in_force_pos fb g cfg out = true -> In (Some out) (force_pos_envelope fb g cfg)) /\
+  (forall sens decs bps obs, cuts_replay sens decs bps obs = true -> exists dec, compute_cuts sens dec bps = obs) /\
+  (forall affs cur obs, assignments_in_envelope cur affs obs = true ->
+     exists bests, Forall2 (fun b aff => Permutation b aff) bests affs /\
+                   assignments_from cur bests = Some (cur :: obs)).
+Proof.
+  split; [exact in_force_pos_sound |]. split; [exact cuts_replay_sound | exact assignments_in_envelope_sound].
+Qed.
